@@ -554,17 +554,24 @@ impl<'a> Model for C14Model<'a> {
 // ------------------------------------------------------------------------------------------------
 fn trade_enable_case(offset: i64, v2: bool) -> Result<u64, String> {
     let mut s = spec(&format!("c14-te-{offset}-{v2}"), AfConsts { filter: 30, decay: 600, reduction: 5000, control: 1500, max_acc: 350_000, group: 16, threshold: 64 }, false);
-    s.permissioned = true;
     let now0 = crate::world::base_ledger().unix_ts;
+    // offset NO_TE: a permission-less pool without a trade-enable timestamp (tradable from creation)
+    let no_te = offset == NO_TE;
+    let offset = if no_te { 0 } else { offset };
+    s.permissioned = !no_te;
     let tet = (now0 + offset) as u64;
-    s.trade_enable_timestamp = Some(tet);
+    s.trade_enable_timestamp = if no_te { None } else { Some(tet) };
+    // created away from tick group 0 (tick 100 = group 6 of 16 ticks): a fresh pool has no volatility history, so its first
+    // swap must be charged relative to its own start group — whatever the pool-creation code wrote into the variables
+    s.sqrt_price = aw::price_of_tick(100);
+    let start_group = 6i64;
     let (l, w) = aw::build(&s);
     let stored = decode::oracle(l.data(&w.pool.oracle)).trade_enable_timestamp;
-    if stored != tet {
+    if stored != if no_te { 0 } else { tet } {
         return Err(format!("oracle stores trade_enable_timestamp {stored}, requested {tet}"));
     }
     let mut checked = 0;
-    for (dt, a_to_b) in [(-3600i64, true), (-1, true), (-1, false), (0, true), (0, false), (1, true), (5000, false)] {
+    for (dt, a_to_b) in [(-3600i64, true), (-1, true), (-1, false), (0, true), (0, false), (1, true), (5, false), (29, true), (30, false), (31, true), (599, false), (600, true), (3599, false), (3600, true), (5000, false)] {
         let mut cur = l.clone();
         cur.unix_ts = tet as i64 + dt;
         if cur.unix_ts < l.unix_ts {
@@ -581,12 +588,34 @@ fn trade_enable_case(offset: i64, v2: bool) -> Result<u64, String> {
             }
         } else if !st.outcome.ok() {
             return Err(format!("swap {dt}s after trade_enable_timestamp failed: {}", st.outcome.short()));
+        } else {
+            // first swap in the life of the pool, 1 000 units against 10^9 liquidity: it stays inside its start group, so with no
+            // earlier swap there is no volatility to charge for — every step is charged exactly the static rate, and afterwards
+            // the reference is the start group with a zero volatility reference and accumulator
+            for t in &st.trace {
+                if let SwapTrace::Step(x) = t {
+                    if x.total_fee_rate != s.base_fee_rate as u32 {
+                        return Err(format!(
+                            "first swap of a pool created at tick 100 (group {start_group}) with trade_enable_timestamp = creation{offset:+}s, executed {dt}s after it: a step inside the start group is charged total rate {} instead of the static rate {} (no swap has happened yet, so there is no volatility)",
+                            x.total_fee_rate, s.base_fee_rate
+                        ));
+                    }
+                }
+            }
+            let o1 = decode::oracle(st.ledger.data(&w.pool.oracle));
+            if o1.tick_group_index_reference as i64 != start_group || o1.volatility_reference != 0 || o1.volatility_accumulator != 0 {
+                return Err(format!(
+                    "after the first swap of the pool ({dt}s after trade enable, inside group {start_group}) the stored reference group / volatility reference / accumulator are {} / {} / {} (expected {start_group} / 0 / 0)",
+                    o1.tick_group_index_reference, o1.volatility_reference, o1.volatility_accumulator
+                ));
+            }
         }
     }
     Ok(checked)
 }
 
-const TE_OFFSETS: [i64; 5] = [-30, 0, 1, 100, 259_200];
+const NO_TE: i64 = i64::MIN;
+const TE_OFFSETS: [i64; 6] = [-30, 0, 1, 100, 259_200, NO_TE];
 
 // ------------------------------------------------------------------------------------------------
 pub fn run(ctx: &Ctx) -> Report {
